@@ -126,8 +126,9 @@ Qed.
     float or an int where Double is declared; a bool, a str, a date, a sequence of byte
     strings for Boolean, Unicode, Date, ByteArray; a list of members of the element type
     where an Array is declared; an instance of the declared class or of a subclass of it.
-    The three source-level choices [dict_leaf] are regenerated from the source on every run
-    (Gen/DictLeaf.v). *)
+    The source-level choices [dict_leaf] (identity test of _ret_bool, integral floats for
+    Integer members, null object / array members read as None) are regenerated from the
+    source on every run (Gen/DictLeaf.v). *)
 
 (** Whatever document is sent — every JSON/YAML/MessagePack value of every kind at every
     position, scalars for maps, maps for lists, lists for scalars, arbitrary keys, wrapper
@@ -168,7 +169,7 @@ Proof. exact dict_msgpack_bytes_refuted. Qed.
 (** the code before the repairs does not have the property: an Integer member receives the
     float 2.0, a Boolean member the int 1, a ComplexModel member the list [] *)
 Theorem C04_dict_unrepaired_refuted :
-  let C := mkdcfg PJson true true unrepaired no_reader no_reader in
+  let C := mkdcfg PJson true true unrepaired no_reader no_reader no_decode in
   dwf one_class = true
   /\ (fdv C one_class 2 (DPrim (DInt None None)) true (JFlt (FInt 2)) = Ok (NFlt (FInt 2))
       /\ ~ has_dtype one_class (NFlt (FInt 2)) (DPrim (DInt None None)))
@@ -189,7 +190,7 @@ Definition exd_U : duniverse :=
                              mkdf [109] (DRef 0%nat) 0 None true ] [] ].
 Definition exd_rd (p : dprim) (s : text) : out nv :=
   match p with DInt _ _ => if text_eqb s [55] then Ok (NInt 7) else VFault | _ => VFault end.
-Definition exd_C (p : proto) (wrappers : bool) : dcfg := mkdcfg p true (negb wrappers) (dict_leaf p) exd_rd exd_rd.
+Definition exd_C (p : proto) (wrappers : bool) : dcfg := mkdcfg p true (negb wrappers) (dict_leaf p) exd_rd exd_rd (fun b => Some b).
 
 Example C04_ex_dict_readers :
   (forall p s v, exd_rd p s = Ok v -> rd_kind p v) /\ dwf exd_U = true.
